@@ -38,6 +38,9 @@ type ScriptSub struct {
 	Redeliver int
 	InFlight  bool          // emit without waiting for settlement
 	Gate      chan struct{} // when non-nil, emission starts after it is closed
+	// EndAfterScript: the subscription ends on its own (its channel is closed) once the script is exhausted,
+	// like a transport whose stream has ended
+	EndAfterScript bool
 	// CtxFor, when set, derives the context of a delivered copy from the subscription context
 	// (a transport that preserves or decorates message contexts)
 	CtxFor func(ctx context.Context, m *message.Message) context.Context
@@ -113,6 +116,9 @@ func (s *ScriptSub) Subscribe(ctx context.Context, topic string) (<-chan *messag
 				}
 				break
 			}
+		}
+		if s.EndAfterScript {
+			return
 		}
 		// script exhausted: stay subscribed until closed or cancelled
 		select {
@@ -247,10 +253,24 @@ const (
 	BWrappedCanceledOut // an error wrapping context.Canceled together with outputs
 	BOutEmpty           // success with an empty, non-nil slice of outputs
 	BAckAsyncErr        // hands the message to a goroutine that Acks it, and returns an error at once (the router's Nack races it)
+	BRootlessErrOut     // an error whose Cause() and Unwrap() report no underlying error, together with outputs
+	BTypedNilErrOut     // a non-nil error interface holding a nil pointer (nil-safe Error method), together with outputs
 	NBehaviours
 )
 
-var behaviourNames = []string{"out0", "out1", "out2", "err", "err+out", "panic(str)", "panic(err)", "panic(nil)", "ack;ok", "ack;err", "ack;panic", "nack;ok", "nack;err", "nack;panic", "canceled+out", "wrapped-canceled+out", "out-empty-slice", "ack-in-goroutine;err"}
+// rootlessError is an application error in the "causer" convention that has no underlying cause.
+type rootlessError struct{ step string }
+
+func (e *rootlessError) Error() string {
+	if e == nil {
+		return "rootless error (nil receiver)"
+	}
+	return "step " + e.step + " failed"
+}
+func (e *rootlessError) Cause() error  { return nil }
+func (e *rootlessError) Unwrap() error { return nil }
+
+var behaviourNames = []string{"out0", "out1", "out2", "err", "err+out", "panic(str)", "panic(err)", "panic(nil)", "ack;ok", "ack;err", "ack;panic", "nack;ok", "nack;err", "nack;panic", "canceled+out", "wrapped-canceled+out", "out-empty-slice", "ack-in-goroutine;err", "rootless-err+out", "typed-nil-err+out"}
 
 func (b Behaviour) String() string { return behaviourNames[b] }
 
@@ -309,6 +329,10 @@ func (b Behaviour) Do(m *message.Message) ([]*message.Message, error) {
 	case BAckAsyncErr:
 		go m.Ack()
 		return nil, ErrHandler
+	case BRootlessErrOut:
+		return Outputs(m, 1), &rootlessError{step: "validate"}
+	case BTypedNilErrOut:
+		return Outputs(m, 1), (*rootlessError)(nil)
 	case BCanceledOut:
 		return Outputs(m, 2), context.Canceled
 	case BWrappedCanceledOut:
